@@ -1548,14 +1548,16 @@ class Lattice3D:
                             )
                         else:
                             diff_space = (xi) ** 2 + (yj) ** 2 + (zk) ** 2
-                            gamma = np.sqrt(
-                                1 + particle.p_abs() ** 2 / particle.mass**2
+                            # gamma * mass, written so that it stays
+                            # finite for massless particles
+                            gamma_mass = np.sqrt(
+                                particle.mass**2 + particle.p_abs() ** 2
                             )
                             diff_velocity = (
                                 particle.px * (xi)
                                 + particle.py * (yj)
                                 + particle.pz * (zk)
-                            ) / (gamma * particle.mass)
+                            ) / gamma_mass
                             smearing_factor = kernel_value.pdf(
                                 [diff_space, diff_velocity]
                             )
